@@ -502,6 +502,8 @@ def cargo_toml(p, rng=None):
     lines.append("locales = [" + ", ".join(json.dumps(l) for l in p["locales"]) + "]")
     if p.get("namespaces") is not None:
         lines.append("namespaces = [" + ", ".join(json.dumps(n) for n in p["namespaces"]) + "]")
+    if p.get("locales_dir"):
+        lines.append("locales-dir = " + json.dumps(p["locales_dir"]))
     if p.get("extra_cfg"):
         lines.append('some-unknown-field = "ignored"')
     if p.get("inherits"):
@@ -521,7 +523,9 @@ def file_list(p, fmt="json"):
     out = []
     for (ns, l), tree in p["files"].items():
         ext = file_ext(p, fmt, ns, l)
-        rel = f"locales/{l}/{ns}.{ext}" if ns else f"locales/{l}.{ext}"
+        d = p.get("locales_dir") or "locales"
+        d = d[2:] if d.startswith("./") else d
+        rel = f"{d}/{l}/{ns}.{ext}" if ns else f"{d}/{l}.{ext}"
         out.append([rel, emit_file(tree, fmt)])
     return sorted(out)
 
